@@ -129,13 +129,27 @@ func drawStream(t *rapid.T) StreamCase {
 	return StreamCase{
 		Stream:      b,
 		Chunk:       rapid.SampledFrom([]int{1, 2, 3, 7, 64, 512, 4096}).Draw(t, "chunk"),
-		Mode:        rapid.SampledFrom([]string{"decode", "token", "mixed", "typed", "encode"}).Draw(t, "mode"),
+		Mode:        rapid.SampledFrom([]string{"decode", "token", "mixed", "typed", "badtarget", "encode"}).Draw(t, "mode"),
 		Indent:      rapid.SampledFrom([]string{"", " ", "\t"}).Draw(t, "indent"),
 		Escape:      rapid.Bool().Draw(t, "esc"),
 		EOFWithData: gen.OneIn(t, 3, "eofdata"),
 		Stall:       rapid.SampledFrom([]int{0, 0, 0, 1, 3}).Draw(t, "stall"),
 		FailAfter:   failAfter(t, len(b)),
 	}
+}
+
+// failOnce is a writer whose k-th Write fails with errBoom and writes nothing; all others succeed.
+type failOnce struct {
+	k, writes int
+	buf       bytes.Buffer
+}
+
+func (w *failOnce) Write(p []byte) (int, error) {
+	w.writes++
+	if w.writes == w.k {
+		return 0, errBoom
+	}
+	return w.buf.Write(p)
 }
 
 func failAfter(t *rapid.T, n int) int {
@@ -189,6 +203,18 @@ func traceFork(c StreamCase) (tr []any) {
 			if err != nil {
 				break
 			}
+		} else if c.Mode == "badtarget" && step%3 == 1 {
+			// a target Decode cannot use: the call fails, the value is consumed all the same, the stream goes on
+			var err error
+			if step%2 == 0 {
+				err = d.Decode(nil)
+			} else {
+				err = d.Decode(map[string]any{})
+			}
+			tr = append(tr, "decode-bad-target", errType(err))
+			if err != nil && !strings.Contains(errType(err), "InvalidUnmarshalError") {
+				break
+			}
 		} else if c.Mode == "typed" && step%2 == 1 {
 			// decode into a type most values do not fit: a type error must leave the stream usable
 			var n int8
@@ -223,6 +249,18 @@ func traceStd(c StreamCase) (tr []any) {
 			tk, err := d.Token()
 			tr = append(tr, "token", tokNorm(tk), errDetail(err))
 			if err != nil {
+				break
+			}
+		} else if c.Mode == "badtarget" && step%3 == 1 {
+			// a target Decode cannot use: the call fails, the value is consumed all the same, the stream goes on
+			var err error
+			if step%2 == 0 {
+				err = d.Decode(nil)
+			} else {
+				err = d.Decode(map[string]any{})
+			}
+			tr = append(tr, "decode-bad-target", errType(err))
+			if err != nil && !strings.Contains(errType(err), "InvalidUnmarshalError") {
 				break
 			}
 		} else if c.Mode == "typed" && step%2 == 1 {
@@ -289,6 +327,36 @@ func checkStream(c StreamCase) ev.Verdict {
 			}
 		}
 		v.NonTrivial = len(vals) >= 2
+		if c.FailAfter > 0 {
+			// a writer whose k-th Write fails (once): what every Encode of the sequence returns and
+			// what reaches the writer afterwards - an Encoder remembers a failed write
+			seq := []any{"a", true, map[string]any{"k": "v<"}, []any{"x", nil}, "tail", false}
+			k := 1 + c.FailAfter%len(seq)
+			run := func(enc func(v any) error, w *failOnce) []any {
+				var tr []any
+				for _, x := range seq {
+					err := enc(x)
+					tr = append(tr, errType(err), w.buf.String(), w.writes)
+				}
+				return tr
+			}
+			w1, w2 := &failOnce{k: k}, &failOnce{k: k}
+			fe, se := fj.NewEncoder(w1), stdjson.NewEncoder(w2)
+			fe.SetEscapeHTML(c.Escape)
+			se.SetEscapeHTML(c.Escape)
+			fe.SetIndent("", c.Indent)
+			se.SetIndent("", c.Indent)
+			var t1, t2 []any
+			if pn := ev.Safe(func() { t1 = run(fe.Encode, w1) }); pn != nil {
+				return ev.Verdict{Err: pn}
+			}
+			t2 = run(se.Encode, w2)
+			v.Classes = append(v.Classes, "encoder-with-a-failing-write")
+			if !reflect.DeepEqual(t1, t2) {
+				v.Err = fmt.Errorf("Encoder traces differ when Write number %d fails (error, bytes written, number of Write calls after each Encode)\n fork: %v\n std:  %v", k, t1, t2)
+				return v
+			}
+		}
 		// json.Number values of the standard library are foreign to the fork (it would quote them):
 		// compare through the fork's own decode instead when numbers are present
 		hasNum := bytes.ContainsAny(c.Stream, "0123456789")
@@ -349,7 +417,7 @@ func checkStream(c StreamCase) ev.Verdict {
 
 var streamUnit = ev.Unit[StreamCase]{
 	Name: "streams-vs-stdlib",
-	Rule: "streams of 0-4 generated values (any spelling, separators of whitespace or nothing, one in five damaged) read through a reader that hands out 1..4096 bytes per Read; modes: Decode loop, Token loop, mixed Token/Decode, and Encoder (SetIndent, SetEscapeHTML) over the decoded values; oracle: the trace of More, InputOffset, Token/Decode results (numbers via UseNumber, mapped), dynamic error types and Buffered of the fork's Decoder equals encoding/json's, and Encoder bytes are identical after normalising \\b \\f; non-trivial = >= 3 steps on a well-formed stream or >= 4 steps, or >= 2 encoded values",
+	Rule: "streams of 0-4 generated values (any spelling, separators of whitespace or nothing, one in five damaged) read through a reader that hands out 1..4096 bytes per Read; the reader may return (0, nil) before every data read, fail with its own error after a drawn number of bytes (also together with its last data), or deliver a 65-140 KiB value; modes: Decode loop, Token loop, mixed Token/Decode, typed Decode that fails with type errors and goes on, Decode with an unusable target in between, and Encoder (SetIndent, SetEscapeHTML) over the decoded values, also with a writer whose k-th Write fails once; oracle: the trace of More, InputOffset, Token/Decode results (numbers via UseNumber, mapped), dynamic error types and Buffered of the fork's Decoder equals encoding/json's, and Encoder bytes are identical after normalising \\b \\f; non-trivial = >= 3 steps on a well-formed stream or >= 4 steps, or >= 2 encoded values",
 	Draw: drawStream, Check: checkStream,
 }
 
